@@ -543,11 +543,13 @@ class Interp:
                     raise PyExc(type(e), e.args, where=getattr(node, "lineno", None))
         if isinstance(fn, (types.BuiltinFunctionType, types.BuiltinMethodType, types.MethodWrapperType, types.MethodDescriptorType, types.WrapperDescriptorType)):
             return self.native_call(fn, args, kwargs, node)
-        if callable(fn) and not contains_symbolic(list(args) + list(kwargs.values())):
+        if callable(fn):
             c = getattr(type(fn), "__call__", None)
             if isinstance(c, types.FunctionType) and self.is_repo_function(c):
+                # instance of a repository class with __call__ (e.g. std.Value): contract / model / inline of that method
                 return self.call_function(c, [fn] + list(args), kwargs, node)
-            return self.native_call(fn, args, kwargs, node)
+            if not contains_symbolic(list(args) + list(kwargs.values())):
+                return self.native_call(fn, args, kwargs, node)
         self.outside(f"call of {fn!r}", node)
 
     def is_repo_class(self, c):
